@@ -1,9 +1,9 @@
 CONSTANTS
  Oids = {"o1","o2"}
- Paths = {"p1","p2"}
+ Paths = {"p1"}
  Branches = {"main","dev"}
- Ages = {0, 20}
- MaxCommits = 3
+ Ages = {0}
+ MaxCommits = 4
  MaxSteps = 6
  Emit = FALSE
  Skew = FALSE
@@ -11,9 +11,9 @@ CONSTANTS
  SmudgedWT = FALSE
  RecentDays = 10
  EmitSel = 0
- Thin = TRUE
- PruneFlags = {"none","dry-run","recent","force","verify-remote"}
-SPECIFICATION PSpec
+ Thin = FALSE
+ PruneFlags = {"none","force","verify-remote"}
+SPECIFICATION PSpecM
 VIEW PView
 PROPERTY NeverPrunesNeeded
 ACTION_CONSTRAINT EmitPrune
